@@ -6,6 +6,10 @@ deep-embedded IR of coq/Model/LoopIR.v.  The IR programs are run by the Coq inte
 QcC (vm_compute) and compared with ZERO tolerance against the hand-written Gallina models (coq/Model/LoopIRTie.v):
 same outcome constructor, every array entry, every scalar.
 
+For LEVINSON, CORRELATION, levup, levdown, HERMTOEP and minvar_psi the equality `run program args = model` is in addition a THEOREM for
+all inputs (coq/Proofs/LoopIR<Name>.v, table THEOREMS below): it is instantiated in the generated file whenever the regenerated program
+text equals the reference text kept in the proof file; otherwise it is not claimed and the exact evaluation decides.
+
 The translator is fail-closed: an `ast` node outside the recognised subset aborts the translation of that function
 (`Untranslatable`), which the tie reports through ctx.broken as "translation of <fn> failed: <node>".  Nothing is
 skipped silently; what is ignored is listed here: docstrings / bare string statements, `logging.<f>(...)` statements
@@ -1400,7 +1404,9 @@ def levinson_reference_text():
 
 TRUSTED_LINE = ("loop-IR tie: the translator tools/props/_loopir.py (Python ast -> IR, fail-closed) and the IR interpreter coq/Model/LoopIR.v "
                 "(semantics of the accepted Python/numpy fragment; arrays by value, no rounding) are trusted; the IR program is regenerated from the "
-                "snapshot source on every run and evaluated exactly (QcC, zero tolerance) against the hand-written model")
+                "snapshot source on every run and evaluated exactly (QcC, zero tolerance) against the hand-written model; for LEVINSON, CORRELATION, "
+                "levup, levdown, HERMTOEP and the psi loop of minvar `run program = model` is moreover a theorem for all inputs (Proofs/LoopIR*.v), "
+                "claimed only while the regenerated program text is the one the proof is about (compared on every run, reflexivity inside Coq)")
 
 
 def loopir_tie(ctx, names):
